@@ -50,6 +50,7 @@ type ScopeCfg struct {
 	Spaced  bool // token-per-space rendering instead of conventional formatting
 	NoMulti bool // no multiply-assigned globals (every global has at most one definition site)
 	JoinPct int  // see Trivia.JoinPct
+	GluePct int  // see Trivia.GluePct (-1 = drawn per workspace)
 }
 
 // GenScopeWS builds a workspace of valid programs with shadowing, closures and cross-file globals.
@@ -58,6 +59,9 @@ func GenScopeWS(r *Rng, sc ScopeCfg) *ScopeWS {
 	if sc.JoinPct < 0 {
 		// drawn from a separate stream so that the rest of the workspace does not depend on it
 		sc.JoinPct = []int{0, 0, 0, 60}[r.Fork(0x6a6f696e).Intn(4)]
+	}
+	if sc.GluePct < 0 {
+		sc.GluePct = []int{0, 0, 50, 100}[r.Fork(0x676c7565).Intn(4)]
 	}
 	if sc.NFiles == 0 {
 		sc.NFiles = r.Range(2, 4)
@@ -117,7 +121,7 @@ func GenScopeWS(r *Rng, sc ScopeCfg) *ScopeWS {
 			}
 			g.PendingDefs = append([]GDef(nil), plans[i]...)
 			toks := g.Chunk()
-			txt := Render(rr, toks, Trivia{LineEnd: "\n", Indent: true, Pretty: !sc.Spaced, JoinPct: sc.JoinPct})
+			txt := Render(rr, toks, Trivia{LineEnd: "\n", Indent: true, Pretty: !sc.Spaced, JoinPct: sc.JoinPct, GluePct: sc.GluePct})
 			pr := RParse([]byte(txt))
 			if !pr.Valid() {
 				panic("harness: scope generator produced invalid program: " + pr.Err + "\n" + txt)
